@@ -273,6 +273,37 @@ func c16Run(c *core.Ctx) {
 			c.SetMax("nesting_depth_completed", int64(d))
 		}
 	}
+	// (1b) two nested constructs side by side in one list (state left behind by the first must not affect
+	// the second): every ordered pair of constructors x leaf bodies, at top level and inside a function body
+	{
+		ns := gen.Nesters(true)
+		leaves := gen.NestLeaves()
+		for i, n1 := range ns {
+			for j, n2 := range ns {
+				for li := range leaves {
+					for lj := range leaves {
+						if !c.Next() || c.Tick() {
+							continue
+						}
+						mk := func(l []*gen.Node) []*gen.Node {
+							out := make([]*gen.Node, len(l))
+							for k, x := range l {
+								out[k] = gen.Clone(x)
+							}
+							return out
+						}
+						pair := []*gen.Node{n1.Wrap(mk(leaves[li])), n2.Wrap(mk(leaves[lj])), gen.Ex(gen.I("v"))}
+						c.Inc("sibling_pair_programs")
+						runProg(pair, fmt.Sprintf("pair:%s+%s", n1.Name, n2.Name), 0)
+						if (i+j+li+lj)%3 == 0 {
+							inFn := []*gen.Node{gen.Func("w", nil, n1.Wrap(mk(leaves[li])), n2.Wrap(mk(leaves[lj])), gen.Ex(gen.I("v")))}
+							runProg(inFn, "pair-in-function", 0)
+						}
+					}
+				}
+			}
+		}
+	}
 	if c.Thorough() {
 		gen.NestChains(gen.Nesters(false), 5, func(prog []*gen.Node, name string) {
 			if !c.Next() || c.Tick() {
